@@ -98,7 +98,22 @@ async fn run_plan(plan: &Plan) -> Result<Outcome, String> {
     ex.step(&HOp::Wait).await;
     let mut total_deletes = 0usize;
     let mut reopens = 0usize;
+    let mut reinserted_first: BTreeSet<u64> = BTreeSet::new();
+    let mut last_removed: Option<u64> = None;
     for (ci, cy) in plan.cycles.iter().enumerate() {
+        // the very first write after a restart re-inserts the key whose delete was the last one before the restart (it holds
+        // the highest tombstone sequence in the log): the re-insert must still win against that tombstone at the next restart
+        if ci > 0 {
+            if let Some(k) = last_removed.take() {
+                if latest.get(&k) == Some(&None) && !cy.deletes.contains(&k) {
+                    let o = ex.step(&HOp::Insert { k, size: 64, loc: Loc::Default }).await;
+                    if let Some(Seen::Hit(s)) = o.seen {
+                        latest.insert(k, Some(s));
+                        reinserted_first.insert(k);
+                    }
+                }
+            }
+        }
         // re-inserts of keys deleted in earlier cycles come first: they are the first sequence numbers drawn after the restart
         for k in cy.reinserts.iter().filter(|k| !cy.deletes.contains(k)) {
             let o = ex.step(&HOp::Insert { k: *k, size: 64, loc: Loc::Default }).await;
@@ -110,6 +125,7 @@ async fn run_plan(plan: &Plan) -> Result<Outcome, String> {
         for k in &cy.deletes {
             ex.step(&HOp::Remove { k: *k }).await;
             latest.insert(*k, None);
+            last_removed = Some(*k);
         }
         total_deletes += cy.deletes.len();
         // a few keys are (re-)inserted and removed again back to back: the remove arrives while the insert is still queued
@@ -118,6 +134,7 @@ async fn run_plan(plan: &Plan) -> Result<Outcome, String> {
                 ex.step(&HOp::Insert { k: *k, size: 64, loc: Loc::Default }).await;
                 ex.step(&HOp::Remove { k: *k }).await;
                 latest.insert(*k, None);
+                last_removed = Some(*k);
             }
         }
         ex.step(&HOp::Wait).await;
@@ -176,7 +193,7 @@ async fn run_plan(plan: &Plan) -> Result<Outcome, String> {
                 format!("after reopen #{reopens} ({} deletes logged so far, {} in this cycle) {} deleted keys are readable again, e.g. {:?}", total_deletes, cy.deletes.len(), resurrected.len(), &resurrected[..resurrected.len().min(3)]),
             ));
         }
-        let reinserted_hidden: Vec<u64> = hidden.iter().copied().filter(|k| plan.cycles[..=ci].iter().any(|c| c.reinserts.contains(k))).collect();
+        let reinserted_hidden: Vec<u64> = hidden.iter().copied().filter(|k| reinserted_first.contains(k) || plan.cycles[..=ci].iter().any(|c| c.reinserts.contains(k))).collect();
         if !reinserted_hidden.is_empty() {
             problems.push((
                 "reinserted-key-hidden-by-old-tombstone".to_string(),
